@@ -384,6 +384,9 @@ func (tm *typeMismatch) text() string {
 			els = append([]string{`Undef`}, els...)
 		}
 		switch len(els) {
+		case 0:
+			// a Variant without member types (it accepts nothing)
+			es = shortName(e)
 		case 1:
 			es = els[0]
 		case 2:
@@ -872,6 +875,16 @@ func internalDescribe(expected px.Type, original, actual px.Type, path []*pathEl
 		// repeat the decomposition of the actual type (Unit, Variant, Optional, NotUndef) that decides it
 		return NoMismatch
 	}
+	ds := describeByKind(expected, original, actual, path)
+	if len(ds) == 0 {
+		// not assignable, and no describer found the reason (an empty Variant, a differing Tuple slot, a
+		// required key that the actual Struct has as optional): report the mismatch of the types as such
+		ds = []mismatch{newTypeMismatch(path, original, actual)}
+	}
+	return ds
+}
+
+func describeByKind(expected px.Type, original, actual px.Type, path []*pathElement) []mismatch {
 	switch expected := expected.(type) {
 	case *types.VariantType:
 		return describeVariantType(expected, original, actual, path)
